@@ -407,6 +407,17 @@ def build_models(interp):
         if sorter is not None or not isinstance(a, np.ndarray) or a.ndim != 1 or a.size < 2:
             raise Unsupported("searchsorted")
         d = np.diff(a)
+        if np.all(d > 0) and not np.allclose(d, d[0], rtol=1e-9) and a.size <= 64 and side in ("left", "right"):
+            # small non-uniform increasing table: the index is the number of entries below v, as an if-then-else chain with integer leaves
+            nodes = [sym.rat(float(x)) for x in a]
+
+            def idx_tab(e):
+                t = sp.Integer(a.size)
+                for k in range(a.size - 1, -1, -1):
+                    t = ite(sp.Le(e, nodes[k]) if side == "left" else sp.Lt(e, nodes[k]), sp.Integer(k), t)
+                return t
+
+            return _ew(idx_tab)(v)
         if not (np.all(d > 0) and np.allclose(d, d[0], rtol=1e-9)):
             raise Unsupported("searchsorted on a non-uniform grid")
         a0, step, nn = sym.rat(float(a[0])), sym.rat(float((a[-1] - a[0]))) / (a.size - 1), a.size
@@ -418,6 +429,30 @@ def build_models(interp):
         return _ew(idx)(v)
 
     reg(np.searchsorted, m_searchsorted)
+
+    def m_cumsum(x, axis=None, **k):
+        """running sum of an explicit array (concrete length, symbolic elements): out[k] = x[0] + ... + x[k], numpy's own order"""
+        if isinstance(x, EA) and x.ndim == 1 and axis in (None, 0, -1):
+            out, acc = np.empty(x.shape, dtype=object), None
+            for i in range(x.size):
+                acc = sym._lift_s(x.a[i]) if acc is None else acc + sym._lift_s(x.a[i])
+                out[i] = acc
+            return EA(out)
+        raise Unsupported("cumsum of %s" % type(x).__name__)
+
+    def m_insert(arr, obj, values, axis=None):
+        if isinstance(arr, EA) and arr.ndim == 1 and isinstance(obj, (int, np.integer)) and not isinstance(values, (EA, A)):
+            v = values if isinstance(values, S) else S(sym.rat(values))
+            out = np.empty(arr.size + 1, dtype=object)
+            lst = list(arr.a)
+            lst.insert(int(obj), v)
+            for i, q in enumerate(lst):
+                out[i] = q
+            return EA(out)
+        raise Unsupported("np.insert on %s" % type(arr).__name__)
+
+    reg(np.cumsum, m_cumsum)
+    reg(np.insert, m_insert)
     reg(np.where, m_where)
     reg(np.zeros_like, _like(0))
     reg(np.ones_like, _like(1))
@@ -577,9 +612,15 @@ def build_models(interp):
         if isinstance(idx, (A, S)) and arr.ndim == 1 and arr.size <= 64:
             ie = idx.e
             if sym.const_leaved(ie) or ie.is_Integer:
+                dom = idx.dom if isinstance(idx, A) else sp.true
+
                 def look(k):
-                    if not k.is_Integer or not (-arr.size <= int(k) < arr.size):
-                        raise Unsupported("table index %s out of range" % k)
+                    if not k.is_Integer:
+                        raise Unsupported("table index %s" % k)
+                    if not (-arr.size <= int(k) < arr.size):
+                        # an out-of-range leaf: IndexError exactly when the index takes that value (a reachability obligation)
+                        Hooks.raises(sp.And(dom, sp.Eq(ie, k)) if dom is not sp.true else sp.Eq(ie, k), "IndexError", "index %s into a table of size %d" % (k, arr.size))
+                        return sp.Symbol("out_of_range_entry", real=True)
                     if id(arr) in interp.named_tables:
                         return interp.table_symbol(arr, int(k))
                     return sym.rat(arr[int(k)].item())
